@@ -77,6 +77,10 @@ template <class It> static void entity_proto(Json &j, std::pair<It, It> pr, It v
     // is documented not to be restored by --, so positions are compared, not the flag)
     size_t len = 0; { auto it = pr.first; while (it != pr.second && len < CAP * 4) { ++it; ++len; } }
     j.key("bk"); { j.begin_arr(); auto it = pr.second; for (size_t n = 0; n < len; ++n) { --it; j.val((*it).idx()); } j.end_arr(); }
+    // backward with the valid() protocol from a VALID iterator: go to the last entity, then step
+    // back while valid() (must visit the remaining entities in reverse and then become invalid)
+    j.key("bk2"); { j.begin_arr(); if (len > 0) { auto it = pr.first; for (size_t n = 0; n + 1 < len; ++n) ++it;
+        size_t n = 0; --it; while (it.valid() && n < CAP * 4) { j.val((*it).idx()); --it; ++n; } } j.end_arr(); }
     j.kv("v0", (bool)pr.first.valid());
     j.end_obj();
 }
